@@ -585,6 +585,23 @@ func (c *Cron) insertLocked(ctx *core.Context, job *CronJob, checkLimit bool) er
 // 3. "+DURATION", where DURATION is a Go Duration
 // (http://golang.org/pkg/time/#ParseDuration).  Examples: "5s" means
 // "5 seconds", "2m" means "2 minutes", and "1h" means "1 hour".
+// parseCronExpression parses a cron expression and checks that
+// occurrences can be computed from it.
+//
+// The parser accepts some expressions that make Next panic: a range
+// that runs backwards ("5-1") leaves a field without any value.
+func parseCronExpression(schedule string) (expr *cronexpr.Expression, err error) {
+	defer func() {
+		if r := recover(); r != nil {
+			expr, err = nil, fmt.Errorf("bad schedule '%s': %v", schedule, r)
+		}
+	}()
+	if expr, err = cronexpr.Parse(schedule); err == nil {
+		expr.Next(time.Now().UTC())
+	}
+	return expr, err
+}
+
 func (c *Cron) Add(ctx *core.Context, id string, schedule string, f func(t time.Time) error) error {
 	core.Log(core.INFO|CRON, ctx, "Cron.Add", "id", id, "schedule", schedule, "name", c.Name)
 	job := CronJob{}
@@ -609,7 +626,7 @@ func (c *Cron) Add(ctx *core.Context, id string, schedule string, f func(t time.
 			return fmt.Errorf("bad one-shot schedule '%s'", schedule)
 		}
 	} else {
-		expr, err := cronexpr.Parse(schedule)
+		expr, err := parseCronExpression(schedule)
 		if err != nil {
 			return err
 		}
